@@ -682,7 +682,7 @@ func seriesCase(pts []geometry.Point, closed bool) rt.Case {
 }
 
 func runC04(r *rt.Run) {
-	r.Rule = "insert histories: every point sequence up to a depth over small lattices; 16 layout families x sizes crossing every structural threshold x <=1 (thorough <=2 for n<=66) displaced points at every position x 25 targets; each under {r-tree, quadtree} x MinPoints {1, n, n+1}, open and closed; probes: grid of query rectangles incl. infinite bounds and 1-ulp neighbours x every early-stop position; then predicate answers under every index and after Move; non-trivial = series with at least one segment"
+	r.Rule = "insert histories: every point sequence up to a depth over small lattices; 16 layout families x sizes crossing every structural threshold x <=1 (thorough <=2 for n<=66) displaced points at every position x 25 targets; each under {r-tree, quadtree} x MinPoints {1, n, n+1}, open and closed; probes: grid of query rectangles incl. infinite bounds and 1-ulp neighbours x every early-stop position; then predicate answers under every index and after Move by 7 offsets (exact, far beyond the extent, inexact in binary) incl. the moved series' own Search; non-trivial = series with at least one segment"
 	r.Assume = []string{"oracle: brute force over SegmentAt(i).Rect() by definition", "index bytes are decoded only to measure which encodings occurred"}
 	var stats idxStats
 	r.Describe = runC04Describe
@@ -850,6 +850,11 @@ func c04Predicates(r *rt.Run) {
 	})
 }
 
+// c04MoveDeltas: exact offsets inside and far beyond the shape's own extent,
+// and offsets that are not exact in binary (every coordinate is rounded by
+// the addition, so a structure carried over from the source no longer fits).
+var c04MoveDeltas = [][2]float64{{8, -16}, {0.5, 0.25}, {1000, 0}, {0, -1000}, {0.1, 0}, {0, 0.3}, {1.0 / 3, -0.001}}
+
 // c04PredJob compares every predicate answer of one family ring/line under
 // each index configuration, and after Move, with the index-free answers.
 func c04PredJob(f family, n int, w *rt.Worker, emit func(class string, c rt.Case, exp, got string)) {
@@ -944,20 +949,32 @@ func c04PredJob(f family, n int, w *rt.Worker, emit func(class string, c rt.Case
 				}
 			}
 			// Move by exact offsets: compare with an index-free shape built from moved points
-			for _, d := range [][2]float64{{8, -16}, {0.5, 0.25}} {
+			for _, d := range c04MoveDeltas {
 				mp, ml := poly.Move(d[0], d[1]), line.Move(d[0], d[1])
 				moved := make([]geometry.Point, len(pts))
 				for k, p := range pts {
 					moved[k] = geometry.Point{X: p.X + d[0], Y: p.Y + d[1]}
 				}
-				fresh := answer(geometry.NewPoly(moved, nil, cfgs[0]), geometry.NewLine(moved, cfgs[0]), d[0], d[1])
+				// exact offsets: reference is the index-free shape; inexact offsets turn
+				// degenerate layouts into arbitrary self-touching ones, where answers
+				// legitimately listed as order dependent would mix in: there the
+				// reference is a fresh shape under the same index configuration
+				refCfg := cfgs[0]
+				if d[0] != math.Trunc(d[0]*4)/4 || d[1] != math.Trunc(d[1]*4)/4 {
+					refCfg = cfg
+				}
+				fresh := answer(geometry.NewPoly(moved, nil, refCfg), geometry.NewLine(moved, refCfg), d[0], d[1])
 				gm := answer(mp, ml, d[0], d[1])
 				w.Evals += int64(len(gm.pt) + len(gm.line) + len(gm.rect))
 				if !eq(gm, fresh) {
 					ci := ci
 					for _, df := range diffs(gm, fresh) {
 						df := df
-						emit("predicate-move-dependence", rt.Case{Kind: "index", Op: "move-predicates", X: map[string]string{"family": j.f.name, "n": fmt.Sprint(j.n), "cfg": fmt.Sprint(ci + 1), "d": fmt.Sprint(d), "what": df}}, "moved shape answers as an index-free shape built from the moved points", "answer differs: "+df)
+						exp := "moved shape answers as an index-free shape built from the moved points"
+						if refCfg != cfgs[0] {
+							exp = "moved shape answers as a shape built from the moved points under the same index options"
+						}
+						emit("predicate-move-dependence", rt.Case{Kind: "index", Op: "move-predicates", X: map[string]string{"family": j.f.name, "n": fmt.Sprint(j.n), "cfg": fmt.Sprint(ci + 1), "d": fmt.Sprint(d), "what": df}}, exp, "answer differs: "+df)
 					}
 				}
 				// and the moved series' own search is exact
